@@ -70,8 +70,12 @@ pub fn materialise(d: &Value, pos: &str) -> Vec<u8> {
     match d["algo"].as_str().unwrap() {
         "absent" => {}
         "wrongtype" => h.push((5093, T_STRING, s_v("8"))),
+        // (with position "second": an algorithm entry of two items - the algorithm is the first)
+        "sha256" if pos == "second" => h.push((5093, T_INT32, json!([[0, 8], [0, 1]]))),
         "sha256" => h.push((5093, T_INT32, json!([8]))),
+        "other_known" if pos == "second" => h.push((5093, T_INT32, json!([[0, 10], [0, 8]]))),
         "other_known" => h.push((5093, T_INT32, json!([if pos == "first" { 1 } else { 10 }]))),
+        _ if pos == "second" => h.push((5093, T_INT32, json!([[0, 99], [0, 8]]))),
         _ => h.push((5093, T_INT32, json!([if pos == "first" { 99 } else { 0 }]))),
     }
     let hdr = encode_wellformed(63, &h);
@@ -175,6 +179,35 @@ pub fn reorder_index(bytes: &[u8], both: bool) -> Option<Vec<u8>> {
             let at = h.at + 16 + 16 * (first + j);
             out[at..at + 16].copy_from_slice(blk);
         }
+    }
+    Some(out)
+}
+
+/// the same package with the index entries behind the region entry of the signature header permuted (k = 0: as they
+/// are, 1: reversed, 2 / 3: rotated, 4 / 5: first / last two swapped, 6: largest tag first, 7: smallest tag last)
+pub fn permute_sig_index(bytes: &[u8], k: usize) -> Option<Vec<u8>> {
+    let lay = rawhdr::layout(bytes)?;
+    let h = &lay.sig;
+    let n = h.entries.len();
+    let first = if n > 0 && h.entries[0].tag == 62 { 1 } else { 0 };
+    let mut order: Vec<usize> = (first..n).collect();
+    let m = order.len();
+    if m >= 2 {
+        match k % 8 {
+            0 => {}
+            1 => order.reverse(),
+            2 => order.rotate_left(1),
+            3 => order.rotate_right(1),
+            4 => order.swap(0, 1),
+            5 => order.swap(m - 2, m - 1),
+            6 => { let x = order.pop().unwrap(); order.insert(0, x); order[1..].reverse(); }
+            _ => { let x = order.remove(0); order.push(x); let l = order.len(); order[..l - 1].reverse(); }
+        }
+    }
+    let mut out = bytes.to_vec();
+    for (j, src) in order.iter().enumerate() {
+        let at = h.at + 16 + 16 * (first + j);
+        out[at..at + 16].copy_from_slice(&bytes[h.at + 16 + 16 * src..h.at + 32 + 16 * src]);
     }
     Some(out)
 }
